@@ -26,7 +26,8 @@ ASSUMPTIONS = [
     "ignore_feedback=True exempts the caller-requested case; latch/unlatch use it by design",
 ]
 SANITY = ["writes_with_injected_fault", "writes_to_nonconforming_unit", "writes_returning_normally"]
-BOUNDS = {"quick": "1 fault per run (2 on values <= 2 bytes); 4 data patterns; short-write lengths {0,1,n-1}", "thorough": "3 faults per run on values <= 2 bytes, 2 on values <= 8 bytes, 1 otherwise, for all 6 data patterns; every short-write length"}
+BOUNDS = {"quick": "1 fault at every answering step (a fault always ends the write, so higher fault bounds add no executions); 4 data patterns; short-write lengths {0,1,n-1,n,n+1}",
+          "thorough": "same fault placement for all 6 data patterns; every short-write length 0..n+1"}
 
 DOC_EXC = ("MemoryLocationNotWriteable", "MemoryWriteFailure", "ResponseError", "MemoryValueNotWriteable", "ValueError")
 GEAR_ADDR, DEV_ADDR = 3, 5
